@@ -18,7 +18,7 @@ from props.common import account, oracle_run
 import props.krylov_cases as kc
 
 DRIVERS = ["krylov"]
-TMO = 600   # seconds per driver shard: a diverging (mutated) solver makes the exact rationals explode
+TMO = 300   # seconds per driver shard: a diverging (mutated) solver makes the exact rationals explode
 MODEL = "krylov"
 TRUSTED_BASE = [
     "Extract_krylov.v: Z.ggcd / Z.gcd realised by zarith gcd (Krylov iterates have 10^4..10^5 digit rationals)",
